@@ -13,7 +13,7 @@ import asyncio
 import json
 
 from .. import env, tlc
-from ..engine import EngineScenario, merge, ms
+from ..engine import EngineScenario, NoConnection, merge, ms
 
 CFG = """SPECIFICATION TSpec
 CONSTANTS R = {R}
@@ -246,7 +246,13 @@ def run(ctx):
         kind = "cancel" if i % 8 == 0 and i > 0 else "overlap" if i % 8 == 2 else "down" if i % 8 == 4 else "gate" if i % 8 == 7 else "gate-active" if i % 8 == 3 else "chatter" if i % 8 == 5 else "stall" if i % 8 == 1 else "active-lossy" if i % 8 == 6 else "calls"
         if kind.startswith("gate") and (i // 8) % 2 == 1:
             kind += "-late"
-        logs.append(scenario(rng, kind))
+        try:
+            logs.append(scenario(rng, kind))
+        except NoConnection as e:
+            # the handshake's own requests are callers of the engine: on a fault-free network against the bundled
+            # simulator every one of them completes
+            ctx.violation({"clause": "connection-cannot-be-established-on-a-fault-free-network"}, {"scenario": kind, "what": str(e)})
+            break
     # logs are validated against the configuration that was in force while they ran
     groups = {}
     for lg in logs:
@@ -289,7 +295,10 @@ def run(ctx):
         raise env.MachineryError("no overlap scenario saw a periodic refresh")
     if not nd and not ctx.new:
         raise env.MachineryError("no call was in progress when the transport was lost")
-    ev.cov["evaluations"] = sum(len(l["ev"]) for l in logs)
+    # (the number of queue events varies by orders of magnitude with the seeded chatter; the stable measure of work
+    # is the number of call / send / return events that were validated)
+    ev.cov["evaluations"] = sum(1 for l in logs for e in l["ev"] if e["k"] in ("call", "send", "ret"))
+    ev.cov["events_validated"] = sum(len(l["ev"]) for l in logs)
     ev.cov["distinct_nontrivial"] = len(nontriv)
     ev.cov["rule"] = "scenarios with >= 2 concurrent callers, distinct by their call/send/return sequence"
     lg = next((l for l in logs if l["ncalls"] >= 2), logs[0])
